@@ -111,9 +111,35 @@ fn resolve(list: &[Option<E>], k: u8, older: Option<E>) -> View {
     }
 }
 
+/// Array-backed source iterator (cheaper under CBMC than `Vec::into_iter().map(Ok)`).
+struct Src<const N: usize> {
+    items: [Option<InternalValue>; N],
+    pos: usize,
+}
+
+impl<const N: usize> Iterator for Src<N> {
+    type Item = crate::Result<InternalValue>;
+    fn next(&mut self) -> Option<Self::Item> {
+        if self.pos < N {
+            let it = self.items[self.pos].take();
+            self.pos += 1;
+            it.map(Ok)
+        } else {
+            None
+        }
+    }
+}
+
+fn src<const N: usize>(input: &[E; N]) -> Src<N> {
+    let mut items: [Option<InternalValue>; N] = [const { None }; N];
+    for i in 0..N {
+        items[i] = Some(to_iv(&input[i]));
+    }
+    Src { items, pos: 0 }
+}
+
 fn run_stream<const N: usize>(input: &[E; N], watermark: u64, evict: bool) -> [Option<E>; N] {
-    let v: Vec<InternalValue> = input.iter().map(to_iv).collect();
-    let mut stream = CompactionStream::new(v.into_iter().map(Ok), watermark).evict_tombstones(evict);
+    let mut stream = CompactionStream::new(src(input), watermark).evict_tombstones(evict);
     let mut out: [Option<E>; N] = [None; N];
     let mut n = 0;
     while n < N {
@@ -210,4 +236,384 @@ fn o1_8_canary() {
     let out = run_stream(&input, kani::any(), kani::any());
     // deliberately false: the stream never drops anything
     assert!(out[1].is_some(), "CANARY");
+}
+
+// =============================================================================================
+// O13.1 weak tombstones under the single-delete discipline
+// =============================================================================================
+
+fn is_w(t: ValueType) -> bool {
+    t == ValueType::WeakTombstone
+}
+fn is_v(t: ValueType) -> bool {
+    t == ValueType::Value || t == ValueType::Indirection
+}
+
+fn o13_1<const N: usize>() {
+    let mut input: [E; N] = [any_e(true); N];
+    for i in 0..N {
+        input[i] = any_e(true);
+        // write-once keys: only inserts and weak deletes
+        kani::assume(is_w(input[i].t) || is_v(input[i].t));
+    }
+    kani::assume(sorted(&input));
+    // discipline inside the stream: versions of one key alternate W / V
+    for i in 1..N {
+        if input[i - 1].k == input[i].k {
+            kani::assume(is_w(input[i - 1].t) != is_w(input[i].t));
+        }
+    }
+    let watermark: u64 = kani::any();
+    let evict: bool = kani::any();
+    let probe: u8 = kani::any();
+    // what lies beneath the compaction for the probed key continues the alternation
+    let mut last: Option<E> = None;
+    for e in input.iter() {
+        if e.k == probe {
+            last = Some(*e);
+        }
+    }
+    let older: Option<E> = if evict || kani::any() { None } else { Some(any_e(true)) };
+    if let Some(o) = older {
+        kani::assume(is_w(o.t) || is_v(o.t));
+    }
+    match last {
+        // every weak delete is preceded by exactly one insert: a V lies beneath a W
+        Some(l) if is_w(l.t) => kani::assume(matches!(older, Some(o) if is_v(o.t))),
+        // beneath an insert lies a weak delete or nothing (never overwritten)
+        Some(_) => kani::assume(matches!(older, None) || matches!(older, Some(o) if is_w(o.t))),
+        None => {}
+    }
+
+    let out = run_stream(&input, watermark, evict);
+
+    let mut inp: [Option<E>; N] = [None; N];
+    for i in 0..N {
+        inp[i] = Some(input[i]);
+    }
+    let before = resolve(&inp, probe, older);
+    let after = resolve(&out, probe, older);
+    assert!(before == after, "weak delete: the key's latest view changed (stays visible or comes back)");
+    assert!(is_subsequence(&input, &out), "output must be a subsequence of the input");
+
+    let n_out = out.iter().flatten().count();
+    kani::cover!(N >= 2 && n_out == 0 && is_w(input[0].t) && !evict, "W and V dropped together");
+    kani::cover!(is_w(input[0].t) && n_out == N, "lone / young W retained");
+    kani::cover!(older.is_some() && last.is_some());
+}
+
+#[kani::proof]
+#[kani::unwind(4)]
+#[kani::stub(alloc::sync::Arc::drop_slow, crate::vk_common::arc_drop_slow_stub)]
+#[kani::stub(std::alloc::handle_alloc_error, crate::vk_common::alloc_err_stub)]
+fn o13_1_weak_delete_n2() {
+    o13_1::<2>();
+}
+
+#[kani::proof]
+#[kani::unwind(5)]
+#[kani::stub(alloc::sync::Arc::drop_slow, crate::vk_common::arc_drop_slow_stub)]
+#[kani::stub(std::alloc::handle_alloc_error, crate::vk_common::alloc_err_stub)]
+fn o13_1_weak_delete_n3() {
+    o13_1::<3>();
+}
+
+// =============================================================================================
+// O9.1 / O17.1: dropped callback and filter verdicts
+// =============================================================================================
+
+struct Recorder<const N: usize> {
+    dropped: [Option<E>; N],
+    n: usize,
+    overflow: bool,
+}
+
+impl<const N: usize> DroppedKvCallback for Recorder<N> {
+    fn on_dropped(&mut self, kv: &InternalValue) {
+        if self.n < N {
+            self.dropped[self.n] = Some(from_iv(kv));
+            self.n += 1;
+        } else {
+            self.overflow = true;
+        }
+    }
+}
+
+/// A filter with one symbolic verdict per call; records what it was shown.
+/// verdict code: 0 Keep, 1 Replace(Value, v'), 2 Replace(Tombstone), 3 Replace(WeakTombstone), 4 Drop
+struct SymFilter<const N: usize> {
+    shown: [Option<E>; N],
+    verdict: [u8; N],
+    newval: [u8; N],
+    n: usize,
+}
+
+impl<const N: usize> StreamFilter for SymFilter<N> {
+    fn filter_item(&mut self, item: &InternalValue) -> crate::Result<StreamFilterVerdict> {
+        assert!(self.n < N, "filter shown more items than the input holds");
+        let i = self.n;
+        self.shown[i] = Some(from_iv(item));
+        self.n += 1;
+        Ok(match self.verdict[i] {
+            0 => StreamFilterVerdict::Keep,
+            1 => StreamFilterVerdict::Replace((ValueType::Value, Slice::from(&[self.newval[i]][..]))),
+            2 => StreamFilterVerdict::Replace((ValueType::Tombstone, Slice::from(&b""[..]))),
+            3 => StreamFilterVerdict::Replace((ValueType::WeakTombstone, Slice::from(&b""[..]))),
+            _ => StreamFilterVerdict::Drop,
+        })
+    }
+}
+
+fn any_filter<const N: usize>(keep_only: bool) -> SymFilter<N> {
+    let mut f = SymFilter::<N> {
+        shown: [None; N],
+        verdict: [0; N],
+        newval: [0; N],
+        n: 0,
+    };
+    if !keep_only {
+        for i in 0..N {
+            let v: u8 = kani::any();
+            kani::assume(v <= 4);
+            f.verdict[i] = v;
+            f.newval[i] = kani::any();
+        }
+    }
+    f
+}
+
+fn run_full<const N: usize>(
+    input: &[E; N],
+    watermark: u64,
+    evict: bool,
+    filter: &mut SymFilter<N>,
+    rec: &mut Recorder<N>,
+) -> [Option<E>; N] {
+    // move the filter in by value and copy its log back afterwards
+    let f = SymFilter::<N> {
+        shown: filter.shown,
+        verdict: filter.verdict,
+        newval: filter.newval,
+        n: 0,
+    };
+    let mut stream = CompactionStream::new(src(input), watermark)
+        .evict_tombstones(evict)
+        .with_filter(f)
+        .with_drop_callback(rec);
+    let mut out: [Option<E>; N] = [None; N];
+    let mut n = 0;
+    while n < N {
+        match stream.next() {
+            Some(Ok(iv)) => {
+                out[n] = Some(from_iv(&iv));
+                std::mem::forget(iv);
+            }
+            Some(Err(_)) => panic!("stream produced an error from error-free input"),
+            None => break,
+        }
+        n += 1;
+    }
+    if n == N {
+        assert!(stream.next().is_none(), "more output than input");
+    }
+    filter.shown = stream.filter.shown;
+    filter.n = stream.filter.n;
+    std::mem::forget(stream);
+    out
+}
+
+fn same(a: &E, b: &E) -> bool {
+    a.k == b.k && a.s == b.s && a.t == b.t && a.v == b.v
+}
+
+/// O9.1: every blob pointer that enters the stream either leaves it unchanged or is reported to
+/// the dropped callback exactly once - never both, never twice, and nothing else is invented.
+fn o9_1<const N: usize>() {
+    let mut input: [E; N] = [any_e(true); N];
+    for i in 0..N {
+        input[i] = any_e(true);
+    }
+    kani::assume(sorted(&input));
+    let watermark: u64 = kani::any();
+    let evict: bool = kani::any();
+    let mut filter = any_filter::<N>(false);
+    let mut rec = Recorder::<N> { dropped: [None; N], n: 0, overflow: false };
+    let out = run_full(&input, watermark, evict, &mut filter, &mut rec);
+
+    assert!(!rec.overflow, "more drop reports than input entries");
+    for i in 0..N {
+        let e = &input[i];
+        let mut reported = 0;
+        for d in rec.dropped.iter().flatten() {
+            if same(d, e) {
+                reported += 1;
+            }
+        }
+        let mut kept = 0;
+        for o in out.iter().flatten() {
+            if same(o, e) {
+                kept += 1;
+            }
+        }
+        assert!(reported <= 1, "an entry was reported dropped twice");
+        if e.t == ValueType::Indirection {
+            assert!(reported + kept == 1, "a blob pointer vanished unreported, or was reported although it survives");
+        }
+    }
+    // nothing is reported that was not in the input
+    for d in rec.dropped.iter().flatten() {
+        let mut found = false;
+        for e in input.iter() {
+            if same(d, e) {
+                found = true;
+            }
+        }
+        assert!(found, "dropped callback received an entry that was not in the input");
+    }
+    kani::cover!(rec.n == N, "everything reported");
+    kani::cover!(rec.n >= 1 && input[0].t == ValueType::Indirection && filter.verdict[0] == 1, "replaced pointer reported");
+    kani::cover!(rec.n == 1 && filter.n == 1 && filter.verdict[0] == 0, "GC drop reported");
+}
+
+#[kani::proof]
+#[kani::unwind(4)]
+#[kani::stub(alloc::sync::Arc::drop_slow, crate::vk_common::arc_drop_slow_stub)]
+#[kani::stub(std::alloc::handle_alloc_error, crate::vk_common::alloc_err_stub)]
+fn o9_1_dropped_callback_n2() {
+    o9_1::<2>();
+}
+
+#[kani::proof]
+#[kani::unwind(5)]
+#[kani::stub(alloc::sync::Arc::drop_slow, crate::vk_common::arc_drop_slow_stub)]
+#[kani::stub(std::alloc::handle_alloc_error, crate::vk_common::alloc_err_stub)]
+fn o9_1_dropped_callback_n3() {
+    o9_1::<3>();
+}
+
+/// O17.1: verdict semantics for the newest entry of the probed key.
+fn o17_1<const N: usize>() {
+    let mut input: [E; N] = [any_e(false); N];
+    for i in 0..N {
+        input[i] = any_e(false);
+    }
+    kani::assume(sorted(&input));
+    let watermark: u64 = kani::any();
+    let evict: bool = kani::any();
+    let older: Option<E> = if evict || kani::any() { None } else { Some(any_e(false)) };
+    let probe: u8 = kani::any();
+    let mut filter = any_filter::<N>(false);
+    let mut rec = Recorder::<N> { dropped: [None; N], n: 0, overflow: false };
+    let out = run_full(&input, watermark, evict, &mut filter, &mut rec);
+
+    // never shown a tombstone; only shown input entries
+    let mut probe_shown = false;
+    let mut first_shown_idx: Option<usize> = None;
+    for j in 0..N {
+        if let Some(sh) = filter.shown[j] {
+            assert!(!sh.t.is_tombstone(), "the filter was shown a tombstone");
+            let mut found = false;
+            for e in input.iter() {
+                if same(&sh, e) {
+                    found = true;
+                }
+            }
+            assert!(found, "the filter was shown an entry that is not in the input");
+            if sh.k == probe && !probe_shown {
+                probe_shown = true;
+                first_shown_idx = Some(j);
+            }
+        }
+    }
+    let mut inp: [Option<E>; N] = [None; N];
+    let mut first: Option<E> = None;
+    let mut versions = 0;
+    for i in 0..N {
+        inp[i] = Some(input[i]);
+        if input[i].k == probe {
+            if first.is_none() {
+                first = Some(input[i]);
+            }
+            versions += 1;
+        }
+    }
+    let before = resolve(&inp, probe, older);
+    let after = resolve(&out, probe, older);
+    if !probe_shown {
+        assert!(before == after, "a key the filter was not shown changed");
+    } else if let Some(f) = first {
+        if !f.t.is_tombstone() {
+            // the newest entry of the key is what the filter is shown first for that key
+            let j = first_shown_idx.unwrap();
+            let sh = filter.shown[j].unwrap();
+            assert!(same(&sh, &f), "the filter was not shown the newest entry of the key first");
+            // the entry the stream emits for this (key, seqno), if any
+            let mut emitted: Option<E> = None;
+            for o in out.iter().flatten() {
+                if o.k == f.k && o.s == f.s {
+                    emitted = Some(*o);
+                }
+            }
+            match filter.verdict[j] {
+                0 => assert!(before == after, "Keep changed the key's view"),
+                1 => {
+                    let e = emitted.expect("ReplaceValue: the replacement must be emitted");
+                    assert!(e.t == ValueType::Value && e.v == filter.newval[j], "ReplaceValue: wrong replacement");
+                    assert!(after.live && after.v == filter.newval[j] && !after.indirection, "ReplaceValue: key does not read as the replacement");
+                }
+                2 => {
+                    assert!(!after.live, "Remove: key still visible");
+                    if !evict {
+                        let e = emitted.expect("Remove: a tombstone must stay to shadow lower levels");
+                        assert!(e.t == ValueType::Tombstone);
+                    }
+                }
+                3 => {
+                    if versions == 1 && older.is_none() {
+                        assert!(!after.live, "RemoveWeak on a write-once key: still visible");
+                    }
+                }
+                _ => {
+                    assert!(emitted.is_none(), "Destroy: entry still emitted");
+                    if versions == 1 && older.is_none() {
+                        assert!(!after.live, "Destroy on a write-once key: still visible");
+                    }
+                }
+            }
+        }
+    }
+    kani::cover!(probe_shown && filter.verdict[0] == 1 && older.is_some());
+    kani::cover!(probe_shown && filter.verdict[0] == 2 && !evict && older.is_some());
+    kani::cover!(!probe_shown && first.is_some());
+    kani::cover!(probe_shown && filter.n == N);
+}
+
+#[kani::proof]
+#[kani::unwind(4)]
+#[kani::stub(alloc::sync::Arc::drop_slow, crate::vk_common::arc_drop_slow_stub)]
+#[kani::stub(std::alloc::handle_alloc_error, crate::vk_common::alloc_err_stub)]
+fn o17_1_filter_verdicts_n2() {
+    o17_1::<2>();
+}
+
+#[kani::proof]
+#[kani::unwind(5)]
+#[kani::stub(alloc::sync::Arc::drop_slow, crate::vk_common::arc_drop_slow_stub)]
+#[kani::stub(std::alloc::handle_alloc_error, crate::vk_common::alloc_err_stub)]
+fn o17_1_filter_verdicts_n3() {
+    o17_1::<3>();
+}
+
+#[kani::proof]
+#[kani::unwind(4)]
+#[kani::stub(alloc::sync::Arc::drop_slow, crate::vk_common::arc_drop_slow_stub)]
+#[kani::stub(std::alloc::handle_alloc_error, crate::vk_common::alloc_err_stub)]
+fn o17_1_canary() {
+    let mut input: [E; 2] = [any_e(false); 2];
+    input[1] = any_e(false);
+    kani::assume(sorted(&input));
+    let mut filter = any_filter::<2>(false);
+    let mut rec = Recorder::<2> { dropped: [None; 2], n: 0, overflow: false };
+    let _out = run_full(&input, kani::any(), kani::any(), &mut filter, &mut rec);
+    assert!(rec.n == 0, "CANARY");
 }
